@@ -458,6 +458,7 @@ func (s *Server) Flush(ctx context.Context, req *spb.FlushRequest) (*spb.FlushRe
 		nis = []string{t.Name}
 	}
 
+	verifPoint("server.Flush.beforeRIBFlush")
 	if err := s.masterRIB.Flush(nis); err != nil {
 		fErr, ok := err.(*rib.FlushErr)
 		det := &bytes.Buffer{}
@@ -748,11 +749,13 @@ func (s *Server) runElection(id string, elecID *spb.Uint128) (*spb.ModifyRespons
 
 	s.elecMu.RLock()
 	defer s.elecMu.RUnlock()
+	verifPoint("server.runElection.beforeCompare")
 	nm, _, err := isNewMaster(elecID, s.curElecID)
 	if err != nil {
 		return nil, err
 	}
 
+	verifPoint("server.runElection.beforeSet")
 	if nm {
 		s.curElecID = elecID
 		s.curMaster = id
@@ -792,11 +795,13 @@ func (s *Server) doModify(cid string, ops []*spb.AFTOperation, resCh chan *spb.M
 		return
 	}
 
+	verifPoint("server.doModify.beforeSnapshot")
 	elec := s.getElection()
 	elec.clientLatest = cs.lastElecID
 	elec.client = cid
 
 	for _, o := range ops {
+		verifPoint("server.doModify.op")
 		ni := o.GetNetworkInstance()
 		if ni == "" {
 			resCh <- &spb.ModifyResponse{
@@ -1117,6 +1122,7 @@ func (s *Server) checkFlushRequest(req *spb.FlushRequest) error {
 		return nil
 	}
 
+	verifPoint("server.checkFlush.beforeRead")
 	id := req.GetId()
 	switch {
 	case id == nil && s.curElecID == nil:
